@@ -360,6 +360,10 @@ pub fn run_unit(u: &Unit, core: usize, ctx: &RunCtx) {
                     .entry(kv[0].as_str().unwrap().to_string())
                     .or_insert(0) += kv[1].as_u64().unwrap_or(0);
             }
+            for n in r["foreign"].as_array().cloned().unwrap_or_default() {
+                let mut a = ctx.agg.lock().unwrap();
+                *a.foreign.entry(format!("{} in {}", n.as_str().unwrap_or(""), u.scenario)).or_insert(0) += 1;
+            }
             for n in r["notes"].as_array().cloned().unwrap_or_default() {
                 ctx.agg
                     .lock()
@@ -556,8 +560,17 @@ pub fn run_units(plan: &Plan, known: Vec<Known>) -> Outcome {
         agg: Mutex::new(Agg::default()),
         max_violations: 3,
     });
-    let queue: Arc<Mutex<VecDeque<Unit>>> =
-        Arc::new(Mutex::new(plan.units.iter().cloned().collect()));
+    let focus: i64 = plan.prop.trim_start_matches('C').parse().unwrap_or(0);
+    let queue: Arc<Mutex<VecDeque<Unit>>> = Arc::new(Mutex::new(
+        plan.units
+            .iter()
+            .cloned()
+            .map(|mut u| {
+                u.params = u.params.clone().set("focus", focus);
+                u
+            })
+            .collect(),
+    ));
     let ncores = std::thread::available_parallelism()
         .map(|n| n.get())
         .unwrap_or(4)
